@@ -88,20 +88,20 @@ func (api *HTTP) getMessages(ctx context.Context, lastSeen robust.Id, msgschan c
 	// …when resuming, GetNext(1431542836610113945.2) will return
 	// 1431542836691955391.*, skipping the remaining messages with
 	// Id=1431542836610113945.
-	// Hence, we need to Get(1431542836610113945.2) to send
-	// 1431542836610113945.3 and following to the client.
-	if msgs, ok := api.output().Get(lastSeen); ok && int(lastSeen.Reply) < len(msgs) {
-		select {
-		case <-ctx.Done():
-			return
-		case msgschan <- outputToRobustMessages(msgs[lastSeen.Reply:]):
-		}
-	}
-	verifhook.At("getmessages.get", "ctx", ctx, "lastseen", lastSeen)
+	// Hence, as long as no message was sent (|pending|), we ask for the
+	// successor of 1431542836610113945-1, i.e. for 1431542836610113945.*
+	// itself, and skip the lastSeen.Reply messages the client already has.
+	// Unlike a Get() before the first GetNext(), this also works when this
+	// node applies 1431542836610113945 only after the client has resumed.
+	pending := true
 
 	for {
 		verifhook.At("getmessages.getnext", "ctx", ctx, "lastseen", lastSeen)
-		if msgs = api.output().GetNext(ctx, lastSeen); len(msgs) == 0 {
+		next := lastSeen
+		if pending && next.Id > 0 {
+			next.Id--
+		}
+		if msgs = api.output().GetNext(ctx, next); len(msgs) == 0 {
 			if ctx.Err() != nil {
 				return
 			}
@@ -122,7 +122,19 @@ func (api *HTTP) getMessages(ctx context.Context, lastSeen robust.Id, msgschan c
 			continue
 		}
 
-		lastSeen = msgs[0].Id
+		id := msgs[0].Id
+		if pending && id.Id == lastSeen.Id {
+			// Skip the messages which the client has already received.
+			if lastSeen.Reply < uint64(len(msgs)) {
+				msgs = msgs[lastSeen.Reply:]
+			} else {
+				msgs = nil
+			}
+		}
+		pending, lastSeen = false, id
+		if len(msgs) == 0 {
+			continue
+		}
 		select {
 		case <-ctx.Done():
 			return
